@@ -68,6 +68,19 @@ def run(tier, seed):
                 got = f"raised {type(e).__name__}: {e}"
             if got != want:
                 viol.append({"id": "innermost-binding", "witness": "binders:" + "+".join(combo), "source": src, "args": args, "tg": tg, "eg": eg, "got": got, "want": want})
+    inc_env = Environment(loader=DictLoader({"p": "{{ a }}-{{ b }}-{{ c }}", "q": "{{ title }}/{{ name }}"}))
+    for src, want, mode in [("{% assign a = 'A' %}{% assign b = 'B' %}{% include 'p', a: b, b: a %}", "B-A-", "both"), ("{% assign name = 'outer' %}{% include 'q', name: 'x', title: name %}", "outer/x", "both"),
+                            ("{% assign a = 'A' %}{% include 'p', c: a, a: 'Z' %}{{ a }}", "Z--AA", "both"), ("{% assign a = 'A' %}{% render 'p', a: 'Q', b: a %}", "Q-A-", "both")]:
+        import asyncio
+        for m in ("sync", "async"):
+            cases += 1
+            try:
+                t = inc_env.from_string(src)
+                got = t.render() if m == "sync" else asyncio.run(t.render_async())
+            except Exception as e:  # noqa: BLE001
+                got = f"raised {type(e).__name__}: {e}"
+            if got != want:
+                viol.append({"id": "argument-scope", "witness": f"args-evaluated-in-caller-scope:{m}", "source": src, "got": got, "want": want})
     for src, want in PATHS:
         cases += 1
         try:
